@@ -50,6 +50,30 @@ class Img(np.ndarray):
         self.frame_no = getattr(obj, "frame_no", None)
 
 
+class Movie:
+    """a reader as image libraries hand it out: a sequence of frames with a close() that is honoured —
+    the reader belongs to the CALLER, who may hand it to several jobs and closes it when he is done"""
+
+    def __init__(self, frames):
+        self._frames = list(frames)
+        self.closed = False
+
+    def __len__(self):
+        return len(self._frames)
+
+    def __getitem__(self, i):
+        if self.closed:
+            raise ValueError("I/O operation on closed file")
+        return self._frames[i]
+
+    def __iter__(self):
+        for i in range(len(self._frames)):
+            yield self[i]
+
+    def close(self):
+        self.closed = True
+
+
 def render(pts, shape=(48, 48), amp=200):
     img = np.zeros(shape, dtype=np.float64)
     yy, xx = np.mgrid[0:shape[0], 0:shape[1]]
@@ -148,8 +172,8 @@ def gen_cases(ctx):
         amps = {jb.get("amp") for jb in jobs if jb["kind"] == "find_link_iter"}
         if i % 16 == 0:
             case["fresh"] = "all"
-        elif any(jb["kind"] == "find_link_iter" and jb.get("amp", 200) <= 60 and jb.get("withhold_seed") is not None
-                 for jb in jobs):
+        elif i % 2 == 0 and any(jb["kind"] == "find_link_iter" and jb.get("amp", 200) <= 60
+                                and jb.get("withhold_seed") is not None for jb in jobs):
             case["fresh"] = "dim"        # the dim movies are where stale grey-level statistics show
         yield case
     if ctx.thorough:
@@ -276,8 +300,9 @@ def run_case(ctx, inp):
             if jb["kind"] == "find_link_iter":
                 key = jb.get("movie_id", j)
                 if key not in readers:
-                    readers[key] = [Img(render(pts, amp=jb.get("amp", 200)), k)
-                                    for k, pts in enumerate(jb["frames"])]
+                    frs = [Img(render(pts, amp=jb.get("amp", 200)), k) for k, pts in enumerate(jb["frames"])]
+                    # half of the shared movies are reader objects with a close() that is honoured
+                    readers[key] = Movie(frs) if (len(frs) + j) % 2 == 0 else frs
                 else:
                     res.stat("shared_movies")
                 sh["reader"] = readers[key]
@@ -308,8 +333,28 @@ def run_case(ctx, inp):
         except StopIteration:
             dead.add(s)
             continue
+        except Exception as e:    # a job of valid input has no reason to fail because of the other jobs
+            res.violation("property-violation",
+                          "job %d (%s) raised %s at its step %d under this schedule: %s"
+                          % (s, jobs[s]["kind"], type(e).__name__, len(out[s]), str(e)[:200]),
+                          impl=dict(ops=ops), signature=dict(what="job-raises-under-interleaving",
+                                                             error=type(e).__name__))
+            return res
         out[s].append((pts, labels))
         ops.append(s)
+        if len(out[s]) == len(jobs[s]["frames"]):
+            # the job has seen its last frame: let it FINISH (run the generator to exhaustion, as a for
+            # loop would) while the other jobs are still alive
+            try:
+                next(gens[s])
+                res.violation("property-violation", "job %d (%s) yields more levels than it has frames"
+                              % (s, jobs[s]["kind"]), signature=dict(what="extra-level"))
+                return res
+            except StopIteration:
+                res.stat("jobs_finished_mid_schedule")
+            except SubnetOversizeException:
+                pass
+            dead.add(s)
     res.stat("schedules")
     res.stat("jobs", len(jobs))
     res.stat("steps", len(ops))
